@@ -98,7 +98,33 @@ fn sampler(_wid: u32, _site: u16, _step: u64) {
     }
 }
 
+/// participant records of the current private collector: address -> freed?
+static LOCALS: Mutex<Option<std::collections::HashMap<usize, bool>>> = Mutex::new(None);
+static CUR_GLOBAL: AtomicUsize = AtomicUsize::new(0);
+
 fn ev_hook(kind: u16, a: usize, _b: usize) {
+    if kind == V::event::LOCAL_REGISTER {
+        if CUR_GLOBAL.load(SeqCst) == 0 {
+            CUR_GLOBAL.store(_b, SeqCst); // the first registration after the collector was created
+        }
+        if _b == CUR_GLOBAL.load(SeqCst) {
+            LOCALS.lock().unwrap().get_or_insert_with(Default::default).insert(a, false);
+        }
+    }
+    if kind == V::event::LOCAL_FREE {
+        let mut g = LOCALS.lock().unwrap();
+        if let Some(m) = g.as_mut() {
+            if let Some(freed) = m.get_mut(&a) {
+                mon::eval("participant-record");
+                if *freed {
+                    drop(g);
+                    mon::observer_violation("C18", "C18|participant-record-freed-twice", format!("the record of a participant ({:#x}) was freed twice", a));
+                    return;
+                }
+                *freed = true;
+            }
+        }
+    }
     if kind == V::event::EPOCH_ADVANCE {
         // an advance while a foreign guard is registered (relevance for C13/C14)
         let me = sched::wid();
@@ -443,10 +469,20 @@ impl ET {
                 if s == usize::MAX {
                     return false;
                 }
-                let n = self.rng.range(20, 70);
-                self.lg(format!("defer x{} via g{}", n, s));
-                for _ in 0..n {
-                    do_defer(self.gref(s), &mut self.rng);
+                if self.rng.chance(1, 3) {
+                    // fill the participant's bag exactly to the brim (the next push has to seal it)
+                    let mut n = 0;
+                    while V::local_state(self.gref(s)).map_or(64, |st| st.bag_len) < 64 && n < 70 {
+                        do_defer(self.gref(s), &mut self.rng);
+                        n += 1;
+                    }
+                    self.lg(format!("defer x{} via g{} (bag now full)", n, s));
+                } else {
+                    let n = self.rng.range(20, 70);
+                    self.lg(format!("defer x{} via g{}", n, s));
+                    for _ in 0..n {
+                        do_defer(self.gref(s), &mut self.rng);
+                    }
                 }
                 self.check_model("defer-burst");
             }
@@ -571,12 +607,12 @@ pub struct EbrStats {
 fn weights(profile: &str) -> Vec<u32> {
     // pin unpin react react_after defer flush collect advance burst extra drop-extra react-panic
     match profile {
-        "c13" => vec![8, 8, 1, 1, 16, 5, 8, 6, 3, 1, 1, 0, 1, 6],
-        "c14" => vec![10, 10, 3, 2, 6, 4, 10, 12, 2, 1, 1, 0, 3, 1],
-        "c15" => vec![6, 7, 1, 1, 14, 5, 5, 3, 8, 2, 2, 0, 1, 3],
+        "c13" => vec![8, 8, 1, 1, 16, 5, 8, 6, 3, 1, 1, 1, 1, 6],
+        "c14" => vec![10, 10, 3, 2, 6, 4, 10, 12, 2, 1, 1, 1, 3, 1],
+        "c15" => vec![6, 7, 1, 1, 14, 5, 5, 3, 8, 2, 2, 2, 1, 3],
         "c16" => vec![12, 12, 8, 6, 4, 3, 4, 3, 1, 0, 0, 2, 4, 0],
         // the real participant registry: handles registering and leaving while others advance
-        "c18e" => vec![10, 9, 3, 2, 3, 2, 8, 12, 1, 10, 10, 0, 3, 0],
+        "c18e" => vec![10, 9, 3, 2, 3, 2, 8, 12, 1, 10, 10, 1, 3, 0],
         // small programs for Miri
         "tiny" => vec![8, 8, 2, 1, 10, 4, 6, 5, 0, 1, 1, 0, 1, 1],
         _ => vec![8, 8, 2, 2, 10, 4, 6, 5, 3, 1, 1, 1, 1, 1],
@@ -611,6 +647,8 @@ fn run_one(cfg: &EbrCfg, eseed: u64, idx: u64, st: &mut EbrStats) {
     }
     let first_c = NEXT_C.load(SeqCst);
     ACTIVE.lock().unwrap().clear();
+    *LOCALS.lock().unwrap() = Some(Default::default());
+    CUR_GLOBAL.store(0, SeqCst);
     let collector = Collector::new();
     // a few epochs of pre-roll on the private collector
     {
@@ -817,6 +855,24 @@ fn run_one(cfg: &EbrCfg, eseed: u64, idx: u64, st: &mut EbrStats) {
             );
         }
     }
+    // every handle and the collector are gone: every participant record of this collector was freed exactly once
+    {
+        let g = LOCALS.lock().unwrap();
+        if let Some(m) = g.as_ref() {
+            mon::eval("participant-record");
+            let left = m.values().filter(|f| !**f).count();
+            if left > 0 {
+                let (n, l) = (m.len(), left);
+                drop(g);
+                mon::observer_violation(
+                    "C18",
+                    "C18|participant-record-never-freed",
+                    format!("{} of {} participant records of the collector were never freed although every handle and the collector itself were dropped", l, n),
+                );
+            }
+        }
+    }
+    CUR_GLOBAL.store(usize::MAX, SeqCst);
     for i in first_c..last_c {
         if EXEC[i % MAXC].load(SeqCst) != 1 {
             mon::violation("C15", "C15|closure-count-not-one", format!("closure {} executed {} times", i, EXEC[i % MAXC].load(SeqCst)));
